@@ -487,9 +487,9 @@ SUBCHECKS = {"algebra": check_algebra, "schedule_random": check_schedule, "sched
 def run(ctx):
     quick = ctx.tier == "quick"
     n = ctx.nshards
-    runner.run_given(ctx, "algebra", algebra_cases(6 if quick else 9, 6 if quick else 16), check_algebra, (800 if quick else 16000) // n)
+    runner.run_given(ctx, "algebra", algebra_cases(6 if quick else 9, 6 if quick else 16), check_algebra, (2400 if quick else 20000) // n)
     runner.run_items(ctx, "schedule_exhaustive", exhaustive_items(ctx.tier), check_schedule)
-    runner.run_given(ctx, "schedule_random", sched_cases(3 if quick else 4, 2), check_schedule, (240 if quick else 4000) // n)
+    runner.run_given(ctx, "schedule_random", sched_cases(3 if quick else 4, 2), check_schedule, (800 if quick else 6000) // n)
     if not quick:
         items = [{"sample": FIXED_SAMPLE, "F": F, "procs": p} for F in (1, 2, 3) for p in (2, 3, 5, 8) for _ in range(2)]
         runner.run_items(ctx, "cli", items, check_cli)
